@@ -12,6 +12,8 @@
 //	c09.memory_grown        wazevo/module_engine.go MemoryGrown               the statements of the function
 //	c10.close_tail          wasm/module_instance.go CloseWithExitCode         the last two statements
 //	c14.read_view           wasm/memory.go MemoryInstance.Read                the returned view expression
+//	c07.wait_wakeups        wasm/memory.go MemoryInstance.wait                the channel receives the parked guest listens to
+//	c07.wait_listens_done   (same)                                            "true" iff one of them is a Done() channel
 package main
 
 import (
@@ -143,6 +145,26 @@ func main() {
 			die("MemoryInstance.Read: last statement is not `return view, ok`")
 		}
 		add("c14.read_view", src(last.Results[0]))
+	}
+
+	{
+		fd := fn(*repo, "internal/wasm/memory.go", "wait", "MemoryInstance")
+		var rs []string
+		done := "false"
+		ast.Inspect(fd.Body, func(n ast.Node) bool {
+			if u, ok := n.(*ast.UnaryExpr); ok && u.Op == token.ARROW {
+				rs = append(rs, src(u))
+				if strings.Contains(src(u), "Done()") {
+					done = "true"
+				}
+			}
+			return true
+		})
+		if len(rs) == 0 {
+			die("MemoryInstance.wait: no channel receive")
+		}
+		add("c07.wait_wakeups", strings.Join(rs, " ;; "))
+		add("c07.wait_listens_done", done)
 	}
 
 	var sb strings.Builder
